@@ -125,7 +125,7 @@ def collect_histories(ctx, vh):
 
     # (2) deeper random walks of the same specification
     d = ctx.scratch("sim")
-    nsim = 3 if tier == "quick" else 25
+    nsim = 1 if tier == "quick" else 25
     gen_cfg(os.path.join(d2, "Sim.cfg"), 4, 8, ALL_OPS, simulate=True)
     r = core.run_tlc(d, "MeshPool", "Sim.cfg", files=[(os.path.join(d2, "Sim.cfg"), "Sim.cfg")],
                      workers=1, timeout=900, simulate="num=%d" % nsim, depth=12, seed=seed)
